@@ -85,7 +85,8 @@ AggCode(r, idxs, k, dv) ==
 
 \* does row r report key values kv under the output names
 KeyMatches(r, kv) == \A i \in 1..Len(cfg.gout) :
-   IF cfg.gout[i] \in DOMAIN r THEN Same(r[cfg.gout[i]], kv[i]) ELSE IsNull(kv[i])
+   IF cfg.gout[i] = "" THEN TRUE         \* a grouping key that the statement does not select
+   ELSE IF cfg.gout[i] \in DOMAIN r THEN Same(r[cfg.gout[i]], kv[i]) ELSE IsNull(kv[i])
 
 \* ---- global carrier: TRIGGER WHEN predicate over the aggregates of the group's rows since it last fired ----
 \* aggregate as a rational <<has, num, den>> (fixed point numerator)
